@@ -4,8 +4,15 @@
 (*                                                                             *)
 (* Objects 1..NObj have a dynamic type ObjType[o] ("Base" or "Derived").       *)
 (* Handle slots 1..NSlot are pieces of raw storage of static type              *)
-(* IntrusivePtr<Base> / IntrusivePtr<Derived> (SlotType[s]); constructing and  *)
-(* destroying a handle are actions.  Who holds a reference to object o:        *)
+(* IntrusivePtr<const Base> / IntrusivePtr<Base> / IntrusivePtr<Derived>       *)
+(* (SlotType[s] = "CBase" / "Base" / "Derived"): the static type of a handle   *)
+(* is part of its abstract state; constructing and destroying a handle are     *)
+(* actions.  A handle converts to every "wider" type (Derived -> Base ->       *)
+(* CBase).  Layout says whether the derived-to-base conversion changes the     *)
+(* address ("multi": the ref-counted base is not the first base; "virtual":    *)
+(* it is a virtual base) or not ("single"); it names input classes only: what  *)
+(* handles designate and how they compare never depends on it.                 *)
+(* Who holds a reference to object o:                                          *)
 (*   creator[o]   the code that created o (1 until it calls refDec once)       *)
 (*   h[s] = o     every constructed handle pointing at o                       *)
 (*   explicit[o]  explicit refInc() calls not yet matched by a refDec()        *)
@@ -35,7 +42,8 @@ EXTENDS Integers, Sequences, FiniteSets, TLC
 CONSTANTS NObj,         \* number of objects
           ObjType,      \* sequence over 1..NObj of "Base" / "Derived"
           NSlot,        \* number of handle slots
-          SlotType,     \* sequence over 1..NSlot of "Base" / "Derived"
+          SlotType,     \* sequence over 1..NSlot of "CBase" / "Base" / "Derived"
+          Layout,       \* "single" / "multi" / "virtual": object layout of the Derived type (names input classes only)
           MaxExplicit,  \* bound on outstanding explicit refInc() per object
           MemberTypes,  \* object types that embed a member handle `next` (subset of {"Base", "Derived"})
           Policy        \* [mc, ma, sm, cmc, cma |-> "release" | "retain" | "swap" | "any"]
@@ -56,10 +64,12 @@ Unc   == -1          \* raw storage holding no handle
 
 Alive(o) == st[o] = "alive"
 Constructed(s) == h[s] # Unc
-\* static typing: a Derived handle can only hold Derived objects; a Base handle holds anything
-Fits(s, v) == v = Null \/ (v \in Objs /\ (SlotType[s] = "Base" \/ ObjType[v] = "Derived"))
-\* handle t is acceptable as source for handle s (same type, or derived-to-base conversion)
-Converts(s, t) == SlotType[s] = "Base" \/ SlotType[t] = "Derived"
+\* static typing: a Derived handle can only hold Derived objects; a Base / const Base handle holds anything
+Fits(s, v) == v = Null \/ (v \in Objs /\ (SlotType[s] # "Derived" \/ ObjType[v] = "Derived"))
+\* handle t is acceptable as source for handle s: same type, or a conversion to a wider type
+\* (derived-to-base, non-const to const)
+Rank(T) == CASE T = "Derived" -> 0 [] T = "Base" -> 1 [] T = "CBase" -> 2
+Converts(s, t) == Rank(SlotType[s]) >= Rank(SlotType[t])
 Conv(s, t) == IF SlotType[s] = SlotType[t] THEN "" ELSE "Conv"
 
 HasMember(o) == ObjType[o] \in MemberTypes
@@ -228,7 +238,7 @@ Dtor(s) ==
 \* Member handles: objects that own a handle (x.next).  The caller reaches x through a reference it holds.
 NextCls(x) == IF m[x] = Null THEN "null" ELSE IF m[x] = x THEN "self" ELSE "obj"
 
-CanSetMember(x, t) == x \in Objs /\ Alive(x) /\ HasMember(x) /\ ExternallyHeld(x) /\ Constructed(t)
+CanSetMember(x, t) == x \in Objs /\ Alive(x) /\ HasMember(x) /\ ExternallyHeld(x) /\ Constructed(t) /\ SlotType[t] # "CBase"
 SetMember(x, t) ==      \* x.next = handle t   (copy assignment into the member; a Derived handle converts)
   /\ CanSetMember(x, t)
   /\ MemberStep("SetMember", [o |-> x, t |-> t],
@@ -283,15 +293,23 @@ Arrow(s) ==         \* operator-> and operator*: the object the handle designate
   /\ CanArrow(s)
   /\ Query("Arrow", [s |-> s], SlotType[s], h[s])
 
-\* a == b, a != b, and the equivalence induced by a < b, for two handles of the same or of
-\* different static type.  Two empty handles: not constrained (no such action).
+\* a == b, a != b and a < b for two handles of the same or of different static types.
+\*   eq / ne     equal exactly when both designate the same object
+\*   unordered   neither a < b nor b < a: exactly when both designate the same object
+\*   order       a < b and b < a agree with what two handles of ONE static type (const Base, to which every
+\*               handle converts) onto the same two objects give: one order of objects for all handle types
+\* Two empty handles: not constrained (no such action).
+\* The class names the static types and, for a Derived handle against a Base / const Base one, whether the
+\* two handles hold different addresses for the same object ("adjusted").
+Adjusted(s, t) == Layout # "single" /\ ((SlotType[s] = "Derived") # (SlotType[t] = "Derived"))
 CanCompare(s, t) == Constructed(s) /\ Constructed(t) /\ ~(h[s] = Null /\ h[t] = Null)
 Compare(s, t) ==
   /\ CanCompare(s, t)
   /\ Query("Compare", [s |-> s, t |-> t],
-           "types=" \o (IF SlotType[s] = SlotType[t] THEN "same" ELSE "mixed") \o "," \o
-           (IF h[s] = h[t] THEN "same-object" ELSE IF h[s] = Null \/ h[t] = Null THEN "one-empty" ELSE "different-objects"),
-           [eq |-> h[s] = h[t], ne |-> h[s] # h[t], unordered |-> h[s] = h[t]])
+           "types=" \o (IF SlotType[s] = SlotType[t] THEN "same" ELSE SlotType[s] \o "/" \o SlotType[t]) \o "," \o
+           (IF h[s] = h[t] THEN "same-object" ELSE IF h[s] = Null \/ h[t] = Null THEN "one-empty" ELSE "different-objects") \o
+           (IF Adjusted(s, t) THEN ",adjusted" ELSE ""),
+           [eq |-> h[s] = h[t], ne |-> h[s] # h[t], unordered |-> h[s] = h[t], order |-> "as-base"])
 
 -------------------------------------------------------------------------------
 Init ==
